@@ -324,5 +324,10 @@ def run(ctx, report: Report) -> None:
     from .e2ematch import nth_formula_table
     nth_formula_table(ctx, r5)
 
+    # the An+B pseudo-classes under every spelling of their names and keywords
+    from .e2etab import equivalent_spellings_table
+    equivalent_spellings_table(ctx, r5, only=('nth', 'even', 'odd'))
+
+
 
 
